@@ -138,7 +138,7 @@ class EmissionModel(SimpleForwardModel):
         from taurex.util.util import compute_dz
         from taurex.contributions import AbsorptionContribution
 
-        dz = compute_dz(self.altitudeProfile)
+        dz = self.deltaz
         total_layers = self.nLayers
         density = self.densityProfile
         wngrid_size = wngrid.shape[0]
